@@ -618,3 +618,76 @@ pub fn extra_stats(_prop: &str, _p: &Program, _r: &RunResult, _agg: &mut Agg) {}
 
 #[allow(dead_code)]
 fn _unused(_: HashKind) {}
+
+/// Rare conditions a check of this property is supposed to reach; reported in the evidence as
+/// (name, hits, reached?) so that a probe stuck at zero is visible.
+pub fn reach_goals(prop: &str, agg: &Agg) -> serde_json::Value {
+    use flurry::verif::Ev;
+    let ev = |e: Ev| agg.ev[e as usize];
+    let ex = |k: &str| agg.extra.get(k).copied().unwrap_or(0);
+    let mut goals: Vec<(&str, u64)> = vec![("preemption inside an operation", agg.nontrivial)];
+    match prop {
+        "C01" | "C05" | "C11" => {
+            goals.push(("resize with a helper joining", ev(Ev::HelperJoined)));
+            goals.push(("insert lost the empty-bin CAS", ev(Ev::CasInsertLost)));
+            goals.push(("bin head changed while waiting for the lock", ev(Ev::HeadChanged)));
+            goals.push(("lookup forwarded to the next table", ev(Ev::ForwardedFind)));
+            goals.push(("tree reader on the list fallback", ev(Ev::ReaderListFallback)));
+            goals.push(("tree writer parked waiting for readers", ev(Ev::WriterParks)));
+            goals.push(("treeify raced (bin already moved / treeified)", ev(Ev::TreeifyRaced)));
+            goals.push(("tree bin untreeified by a removal", ev(Ev::UntreeifiedOnRemove)));
+            goals.push(("table initialisation race lost", ev(Ev::InitTableLost)));
+        }
+        "C03" | "C04" => {
+            goals.push(("references re-read under a live guard", agg.refs_checked));
+            goals.push(("objects retired", ev(Ev::Retire)));
+            goals.push(("tree bin split by a resize", ev(Ev::TreeSplit)));
+            goals.push(("tree bin untreeified by a removal", ev(Ev::UntreeifiedOnRemove)));
+            goals.push(("insert lost the empty-bin CAS", ev(Ev::CasInsertLost)));
+            goals.push(("runs under reclamation pressure", ex("runs_with_reclamation_pressure_batch_1_to_4")));
+        }
+        "C06" => {
+            goals.push(("tree bins validated at quiescence", ex("tree_bins_validated")));
+            goals.push(("tree bins validated mid-run", ex("midrun_tree_validations")));
+            goals.push(("tree bin split by a resize", ev(Ev::TreeSplit)));
+            goals.push(("lookups cost-checked", ex("tree_lookups_cost_checked")));
+        }
+        "C07" => {
+            goals.push(("iterations overlapped by a resize", ex("iterations_overlapped_by_resize")));
+            goals.push(("iterator descended into a forwarded table", ev(Ev::IterPush)));
+            goals.push(("stable keys checked for exactly-once", ex("stable_keys_checked")));
+            goals.push(("tree bin emptied by a removal", ex("tree_bins_emptied_by_removal")));
+        }
+        "C08" => {
+            goals.push(("pure counter keys checked in closed form", ex("pure_counter_keys_checked")));
+            goals.push(("bin head changed while waiting for the lock", ev(Ev::HeadChanged)));
+        }
+        "C10" => {
+            goals.push(("resize generations", ex("resize_generations")));
+            goals.push(("generations with 2 or more helpers", ex("generations_with_2_or_more_helpers")));
+            goals.push(("resize started by reserve/presize", ev(Ev::PresizeResize)));
+            goals.push(("tree bin split by a resize", ev(Ev::TreeSplit)));
+            goals.push(("post-run growth probes", ex("post_run_growth_probes")));
+        }
+        "C12" => {
+            goals.push(("stall faults fired", agg.faults[2]));
+            goals.push(("tree reader on the list fallback", ev(Ev::ReaderListFallback)));
+            goals.push(("lookup forwarded to the next table", ev(Ev::ForwardedFind)));
+            goals.push(("writer parked behind a stalled reader", ev(Ev::WriterParks)));
+        }
+        "C13" => {
+            goals.push(("retain skipped a replaced value (list bin)", ex("retain_skipped_replaced_value_in_list_bin")));
+            goals.push(("retain skipped a replaced value (tree bin)", ex("retain_skipped_replaced_value_in_tree_bin")));
+        }
+        "C15" => {
+            goals.push(("cross-thread payload reads checked", ex("cross_thread_payload_reads_checked")));
+            goals.push(("reads of clones made by a third thread", ex("cross_thread_reads_of_clones_made_by_a_third_thread")));
+            goals.push(("lock edges taken", ex("lock_edges_taken")));
+        }
+        "C18" => {
+            goals.push(("callback panics injected", agg.faults[5]));
+        }
+        _ => {}
+    }
+    serde_json::Value::Array(goals.into_iter().map(|(n, h)| serde_json::json!({"condition": n, "hits": h, "reached": h > 0})).collect())
+}
